@@ -174,6 +174,38 @@ def main(argv):
     for name, axioms in thms:
         rep.obligation('theorem ' + name + (' [axioms: %s]' % ', '.join(axioms) if axioms else ' [closed under the global context]'), True)
 
+    # ---- code-object stream: one code object launched from several contexts (processes) on an emulation platform
+    if not replay_file or 'codeobj' in json.dumps(json.load(open(replay_file)))[:400]:
+        tmpc = os.path.join(vlib.BUILD, 'c12_%d.co.json' % os.getpid())
+        hs = os.path.join(vlib.REPO, 'amd/driver/memcopy.hsaco')
+        rc, log = vlib.run([binary, '--codeobj', hs, '--out', tmpc], timeout=600)
+        cos = json.load(open(tmpc)) if os.path.exists(tmpc) else None
+        if os.path.exists(tmpc):
+            os.remove(tmpc)
+        if cos is None:
+            rep.obligation('code-object stream', False)
+            rep.violation({'broken': 'harness code-object stream failed', 'log': log[-4000:]}, nofail=True,
+                          text='harness code-object stream failed: ' + (log.strip().split('\n') or [''])[0][:200])
+            return rep.finish()
+        cobad = []
+        for c in cos:
+            if c.get('died'):
+                cobad.append((c, 'contexts are not isolated (code object): scenario "%s": %s' % (c['name'], c['died'])))
+            for k, st in enumerate(c.get('steps', [])):
+                if st['result'] != 'ok':
+                    cobad.append((c, 'contexts are not isolated (code object): scenario "%s": launch %d (context %d) computed a wrong '
+                                     'result: %s' % (c['name'], k + 1, st['ctx'], st.get('detail', ''))))
+        rep.obligation('code-object stream: %d scenarios (2-3 contexts of different and of the same process launch ONE code object on an '
+                       'emulation platform, %d launches): every launch completes and copies its own context\'s input'
+                       % (len(cos), sum(len(c.get('steps', [])) for c in cos)), not cobad)
+        rep.coverage['codeobj_stream'] = {'scenarios': len(cos), 'launches': sum(len(c.get('steps', [])) for c in cos), 'failures': len(cobad)}
+        if cobad:
+            c, msg = cobad[0]
+            rep.violation({'property': PROP, 'what': msg, 'case': [c], 'log': log[-3000:],
+                           'replay_cmd': 'build/bin*/c12 --codeobj <tree>/amd/driver/memcopy.hsaco --out /tmp/co.json  (or ./check C12 --replay <this file>)'},
+                          text=msg)
+            return rep.finish()
+
     # ---- copy mode: data isolation between queues, re-use of a queue after degenerate commands
     copies = []
     if replay_file:
